@@ -82,6 +82,14 @@ Example C11_restored_nonvacuous :
   Forall (fun o => is_fail o = false) (run_shared false chain_store chain_reqs).
 Proof. vm_compute. repeat split; repeat constructor. Qed.
 
+(* assertions run from the most derived layer down to the base; an object whose only
+   assertions are inherited still has them (the shape of the refutation witness above) *)
+Example C11_assert_order_example :
+  cond {| layers := [[Some 1]; [None; Some 2]]; checked := false |} = Some 2 /\
+  cond {| layers := [[None; Some 4]; []]; checked := false |} = Some 4 /\
+  cond {| layers := [[None]; []; [None]]; checked := false |} = None.
+Proof. vm_compute. repeat split. Qed.
+
 (* "unknown field" for a never-interned string is the right answer, and answers do not
    change as the interner grows *)
 Theorem C11_intern_lookup_sound : forall ss later o s,
@@ -112,5 +120,6 @@ Print Assumptions C11_history_independent_if_restored.
 Print Assumptions C11_history_independent_if_restored_eq.
 Print Assumptions C11_memo_transparent.
 Print Assumptions C11_restored_nonvacuous.
+Print Assumptions C11_assert_order_example.
 Print Assumptions C11_intern_lookup_sound.
 Print Assumptions C11_nonvacuous.
